@@ -26,11 +26,14 @@ RULE = (
     "cases = (chain of 2-6 virtual tree states, recursive flag, fault plan per poll); exhaustive part: every new "
     "state with <= 3 entries over {a,b}, depth 2, from 3 baseline states, x every (stat|listdir, path) position of "
     "the walk x {ENOENT, ENOTDIR, EACCES, delete-before-call, replace-by-file-before-call} x recursive flag; random "
-    "part: Hypothesis chains over {a,b,c}, depth 3, with 0-2 faults per poll.  non-trivial = a poll whose reference "
+    "part: Hypothesis chains over {a,b,c}, depth 3, with 0-2 faults per poll; concurrent part (props/c10_conc.py): the "
+    "emitter thread on the virtual clock x one change (none/create/delete/modify/move) at a generated time x stop() at a "
+    "generated time (also mid-walk) x schedules (DFS with <= k preemptions over 5 fixed programs, random schedules): the "
+    "queue holds nothing but the events of that change, each once, all of them if a full poll lay in between.  non-trivial = a poll whose reference "
     "diff has >= 2 entries of different classes, or a fault that changed the effective tree; distinct = digest of the case"
 )
 ASSUMPTIONS = [
-    "PollingEmitter is driven synchronously (on_thread_start + queue_events(0)); threads and the polling clock are C06's business",
+    "sequential parts: PollingEmitter is driven synchronously (on_thread_start + queue_events(0)); concurrent part: the real thread under vlib/dsched, every walk served from the state at its first call (a rename seen half-way by a walk is outside the precondition 'every inode has one path')",
     "effective tree under a fault: failing stat => entry and subtree absent; failing listing (ENOENT/ENOTDIR, or EACCES below the root) => no children, entry present; EACCES on the root listing or any failure of stat(root) => root gone",
     "faults are keyed by (op, path): each path is stat'ed once and listed once per walk, so this enumerates every call position",
 ]
@@ -338,10 +341,16 @@ NSH = 16
 
 
 def shards(tier, seed):
-    return [(k, tier, seed, i) for i in range(NSH) for k in ("exh", "hyp")]
+    from props import c10_conc
+
+    return [(k, tier, seed, i) for i in range(NSH) for k in ("exh", "hyp")] + c10_conc.shards(tier, seed)
 
 
 def run_shard(spec):
+    if spec[0] == "conc":
+        from props import c10_conc
+
+        return c10_conc.run_shard(spec)
     kind, tier, seed, i = spec
     st_ = Stats()
     if kind == "exh":
@@ -374,6 +383,10 @@ def run_shard(spec):
 
 
 def replay(case):
+    if str(case.get("kind", "")).startswith("conc-"):
+        from props import c10_conc
+
+        return c10_conc.replay(case)
     states = [vfs.case_to_tree(t) for t in case["states"]]
     plans = [dec_plan(p) for p in case["plans"]]
     try:
